@@ -13,6 +13,7 @@ re-parse to an equal value is checked on the real serialiser and parser by the s
 -/
 import PasskeyVerif.Lemmas.Base64
 import PasskeyVerif.Lemmas.Serde
+import PasskeyVerif.Lemmas.SerdeSer
 import PasskeyVerif.Model.WebauthnJson
 import PasskeyVerif.Generated.WebauthnSchema
 namespace PasskeyVerif.C14
@@ -208,10 +209,10 @@ theorem C14_challenge_presentations (knownAlg : Int → Bool) (fuel : Nat) (bs :
   obtain ⟨h1, h2, h3⟩ := C14_binary_presentations bs pad tokens hd
   have hsd : ∃ sd, Generated.Webauthn.schema.struct? "PublicKeyCredentialRequestOptions" = some sd
       ∧ ∀ f, sd.fieldFor "challenge" = some f → f.wrap = .plain ∧ (f.ty = .bytes ∨ f.ty = .opt .bytes) := by
-    refine ⟨Generated.Webauthn.structs[2]!, by decide +kernel, ?_⟩
+    refine ⟨Generated.Webauthn.structs[1]!, by decide +kernel, ?_⟩
     intro f hf
-    have : f = ⟨"challenge", "challenge", [], .bytes, false, .plain⟩ := by
-      have h : (Generated.Webauthn.structs[2]!).fieldFor "challenge" = some ⟨"challenge", "challenge", [], .bytes, false, .plain⟩ := by
+    have : f = ⟨"challenge", "challenge", [], .bytes, false, .plain, false⟩ := by
+      have h : (Generated.Webauthn.structs[1]!).fieldFor "challenge" = some ⟨"challenge", "challenge", [], .bytes, false, .plain, false⟩ := by
         decide +kernel
       rw [h] at hf; exact (Option.some.inj hf).symm
     subst this
@@ -234,18 +235,33 @@ that must be present are exactly those WebAuthn marks as required; every other m
 theorem C14_required_members :
     Generated.Webauthn.structs.map (fun sd => (sd.name, requiredOf sd)) =
       [("CredentialRequestOptions", ["publicKey"]),
-       ("CredentialCreationOptions", ["publicKey"]),
        ("PublicKeyCredentialRequestOptions", ["challenge"]),
-       ("PublicKeyCredentialCreationOptions", ["rp", "user", "challenge", "pubKeyCredParams"]),
        ("PublicKeyCredentialDescriptor", ["type", "id"]),
        ("AuthenticationExtensionsClientInputs", []),
+       ("AuthenticationExtensionsPrfInputs", []),
+       ("AuthenticationExtensionsPrfValues", ["first"]),
+       ("CredentialCreationOptions", ["publicKey"]),
+       ("PublicKeyCredentialCreationOptions", ["rp", "user", "challenge", "pubKeyCredParams"]),
        ("PublicKeyCredentialRpEntity", ["name"]),
        ("PublicKeyCredentialUserEntity", ["id", "displayName", "name"]),
        ("PublicKeyCredentialParameters", ["type", "alg"]),
        ("AuthenticatorSelectionCriteria", []),
-       ("AuthenticationExtensionsPrfInputs", []),
-       ("AuthenticationExtensionsPrfValues", ["first"])] := by
+       -- the credentials the client emits
+       ("PublicKeyCredential<AuthenticatorAttestationResponse>", ["id", "rawId", "type", "response"]),
+       ("AuthenticatorAttestationResponse", ["clientDataJSON", "authenticatorData", "publicKeyAlgorithm", "attestationObject"]),
+       ("AuthenticationExtensionsClientOutputs", []),
+       ("CredentialPropertiesOutput", []),
+       ("AuthenticationExtensionsPrfOutputs", []),
+       ("PublicKeyCredential<AuthenticatorAssertionResponse>", ["id", "rawId", "type", "response"]),
+       ("AuthenticatorAssertionResponse", ["clientDataJSON", "authenticatorData", "signature"])] := by
   decide +kernel
+
+/-- the structs a relying party's options are parsed into (the rest of the schema is what the client emits) -/
+def optionStructs : List StructDef :=
+  Generated.Webauthn.structs.filter (fun sd => ["CredentialRequestOptions", "PublicKeyCredentialRequestOptions", "PublicKeyCredentialDescriptor",
+    "AuthenticationExtensionsClientInputs", "AuthenticationExtensionsPrfInputs", "AuthenticationExtensionsPrfValues", "CredentialCreationOptions",
+    "PublicKeyCredentialCreationOptions", "PublicKeyCredentialRpEntity", "PublicKeyCredentialUserEntity", "PublicKeyCredentialParameters",
+    "AuthenticatorSelectionCriteria"].contains sd.name)
 
 /-- the helper a member is read through must suit its type: enumerations (bare or optional) through
 `ignore_unknown`, lists of enumerations or of descriptors / parameters through `ignore_unknown_opt_vec` /
@@ -263,14 +279,14 @@ def lenientlyRead (f : Field) : Bool :=
   | _ => true
 
 /-- **Unknown enumeration strings and unknown list entries are tolerated wherever they can occur**: every member
-of an enumeration type, and every list of enumerations, descriptors or parameters, in every option struct of
-the source as it is now, is read through the lenient helper (so the three theorems above apply to it); no
+of an enumeration type, and every list of enumerations, descriptors or parameters, in every one of the twelve option
+structs of the source as it is now, is read through the lenient helper (so the three theorems above apply to it); no
 variant list is empty and every `#[default]` names a variant. -/
 theorem C14_enumeration_members_are_lenient :
-    (Generated.Webauthn.structs.all (fun sd => sd.fields.all lenientlyRead)) = true
+    optionStructs.length = 12 ∧ (optionStructs.all (fun sd => sd.fields.all lenientlyRead)) = true
     ∧ (Generated.Webauthn.enums.all (fun e => !e.variants.isEmpty
         && (match e.dflt with | some d => e.variants.any (·.1 == d) | none => true))) = true
-    ∧ (Generated.Webauthn.structs.all (fun sd => sd.fields.all (fun f => match f.ty with
+    ∧ (optionStructs.all (fun sd => sd.fields.all (fun f => match f.ty with
         | .enum n => ((Generated.Webauthn.schema.enum? n).bind (·.dflt)).isSome
         | _ => true))) = true := by
   decide +kernel
@@ -278,6 +294,56 @@ theorem C14_enumeration_members_are_lenient :
 /-- member names and aliases are distinct within each struct (so `fieldFor` is unambiguous) -/
 theorem C14_member_names_distinct :
     (Generated.Webauthn.structs.all (fun sd => (sd.fields.flatMap (fun f => f.json :: f.aliases)).Nodup)) = true := by
+  decide +kernel
+
+/-! ### emitted credentials re-parse to an equal value (serialiser model: Model/SerdeSer.lean) -/
+
+/-- the part of the regenerated schema the client's output is made of: `PublicKeyCredential<R>` for both response
+types and what they contain -/
+def emittedSchema : Schema :=
+  ⟨Generated.Webauthn.structs.filter (fun sd => ["PublicKeyCredential<AuthenticatorAttestationResponse>", "AuthenticatorAttestationResponse",
+      "AuthenticationExtensionsClientOutputs", "CredentialPropertiesOutput", "AuthenticationExtensionsPrfOutputs", "AuthenticationExtensionsPrfValues",
+      "PublicKeyCredential<AuthenticatorAssertionResponse>", "AuthenticatorAssertionResponse"].contains sd.name),
+   Generated.Webauthn.enums⟩
+
+/-- the structs of the source as it is now meet the conditions of the round trip: every helper is used on the type it
+is written for, every member that is left out when `None` is optional and has a default (or is a plain `Option`),
+member names are distinct, and all eight structs are there -/
+theorem C14_emitted_schema_ok : SchemaOk emittedSchema = true ∧ emittedSchema.structs.length = 8 := by
+  decide +kernel
+
+/-- **Every credential the client emits serialises to JSON that parses back to an equal value** (model): for every
+value `v` of either credential type — any id, any byte strings, any optional member present or absent, any
+extension outputs, any algorithm number of the i64 range — and in either form of binary members (arrays of numbers,
+or base64url text under the crate feature `serialize_bytes_as_base64_string`), whatever the serialiser model writes,
+the parser model reads back as `v`. -/
+theorem C14_emitted_credentials_reparse (b64 : Bool) (knownAlg : Int → Bool) (root : String)
+    (hroot : root = "PublicKeyCredential<AuthenticatorAttestationResponse>" ∨ root = "PublicKeyCredential<AuthenticatorAssertionResponse>")
+    (d : Nat) (v : Val) (j : Json) (F : Nat)
+    (hv : wt emittedSchema knownAlg d (.struct root) v = true) (hs : serTy emittedSchema b64 d (.struct root) v = some j)
+    (hF : 3 * d ≤ F) :
+    parseTy emittedSchema knownAlg F false (.struct root) j = .ok v :=
+  roundtrip emittedSchema b64 knownAlg C14_emitted_schema_ok.1 d (.struct root) v j F false rfl hv hs hF
+
+/-- ... a binary member is written as an array of its byte values, or as unpadded base64url text under the feature:
+the two forms the leaf theorems above start from -/
+theorem C14_binary_members_written (S : Schema) (d : Nat) (b : List UInt8) :
+    serTy S false (d + 1) .bytes (.bytes b) = some (.arr (b.map (fun x => .num (toString x.toNat))))
+    ∧ serTy S true (d + 1) .bytes (.bytes b) = some (.str (Base64.encodeUrl b)) := ⟨rfl, rfl⟩
+
+/-- a concrete registration credential is a value of its type and is written (non-vacuity of the round trip) -/
+def exampleCredential : Val :=
+  .record "PublicKeyCredential<AuthenticatorAttestationResponse>" [
+    ("id", .str "AQID"), ("raw_id", .bytes [1, 2, 3]), ("ty", .enumv "public-key"),
+    ("response", .record "AuthenticatorAttestationResponse" [
+      ("client_data_json", .bytes [123, 125]), ("authenticator_data", .bytes [0, 1]), ("public_key", .none),
+      ("public_key_algorithm", .int (-7)), ("attestation_object", .bytes [160]), ("transports", .some (.list [.enumv "internal", .enumv "hybrid"]))]),
+    ("authenticator_attachment", .some (.enumv "platform")),
+    ("client_extension_results", .record "AuthenticationExtensionsClientOutputs" [
+      ("cred_props", .some (.record "CredentialPropertiesOutput" [("discoverable", .some (.bool true))])), ("prf", .none)])]
+
+example : wt emittedSchema (fun _ => true) 6 (.struct "PublicKeyCredential<AuthenticatorAttestationResponse>") exampleCredential = true
+    ∧ (serTy emittedSchema false 6 (.struct "PublicKeyCredential<AuthenticatorAttestationResponse>") exampleCredential).isSome = true := by
   decide +kernel
 
 end PasskeyVerif.C14
